@@ -28,6 +28,7 @@ import (
 
 	"verifharness/gen"
 	"verifharness/mon"
+	"verifharness/oracle"
 	"verifharness/store"
 )
 
@@ -293,6 +294,209 @@ func TestC17(t *testing.T) {
 					return
 				}
 			}
+		})
+	}
+	// a load that hangs in storage (a peer that never answers): goroutine A's lookup is stuck fetching
+	// one child shard; goroutine B looks up a name under ANOTHER child shard, whose blocks are all
+	// there. Alone B's lookup returns at once, so it has to return here too - the store lets A's read go
+	// only after B's lookup has returned, so if B waits for A nobody moves and the round is a deadlock
+	for k := 0; k < r.Pick(3, 12); k++ {
+		k := k
+		r.Case(fmt.Sprintf("dir-stalled-load/%d", k), map[string]any{"fanout": []int{8, 16, 256}[k%3], "entries": 400, "goroutines": 2}, func(c *mon.Case) {
+			fan := []int{8, 16, 256}[k%3]
+			st := store.New()
+			names := namesFor(c, dirCase{Family: "ascii", N: 400 + 3000*boolInt(fan == 256)})
+			entries, model, _ := childEntries(st, names)
+			l, _, err := builder.BuildUnixFSShardedDirectory(fan, multihash.MURMUR3X64_64, entries, st.LinkSystem(false))
+			if err != nil {
+				c.Harness("build: %v", err)
+				return
+			}
+			w := walkerFor(st)
+			// two members whose hash paths leave the root through different child shards
+			var nameA, nameB string
+			var childA cid.Cid
+			for _, nm := range names {
+				p, _, err := w.HamtLookupPath(linkCid(l), nm)
+				if err != nil || len(p) < 1 {
+					continue
+				}
+				if nameA == "" {
+					nameA, childA = nm, p[0]
+				} else {
+					disjoint := true
+					for _, b := range p {
+						if b.Equals(childA) {
+							disjoint = false
+						}
+					}
+					if disjoint {
+						nameB = nm
+						break
+					}
+				}
+			}
+			if nameB == "" {
+				c.Harness("no two names under different child shards")
+				return
+			}
+			for round := 0; round < 4; round++ {
+				fs := st.Clone()
+				ls := fs.LinkSystem(true)
+				raw, err := loadRaw(ls, linkCid(l))
+				if err != nil {
+					c.Harness("load: %v", err)
+					return
+				}
+				node, err := reify(ls, raw)
+				if err != nil {
+					c.Violation("C17|reify", "%v", err)
+					return
+				}
+				entered, gate := make(chan struct{}), make(chan struct{})
+				var once, gateOnce sync.Once
+				release := func() { gateOnce.Do(func() { close(gate) }) }
+				fs.OnRead = func(b cid.Cid) {
+					if b.Equals(childA) {
+						once.Do(func() { close(entered) })
+						<-gate
+					}
+				}
+				hs := &hookState{seed: c.Seed + uint64(round)}
+				res := runRound(c, node, 2, hs, int64(c.Seed)+int64(round), func(g int, rr *rand.Rand, node ipld.Node, res *c17Result) {
+					name := nameA
+					if g == 1 {
+						name = nameB
+						<-entered // A is inside its load now
+					}
+					v, err := node.LookupByString(name)
+					atomic.AddInt64(&res.ops, 1)
+					if g == 1 {
+						release()
+					}
+					if err != nil {
+						res.diff("LookupByString(%q) of a member failed: %v", name, err)
+					} else if got, e := asCid(v); e != nil || !got.Equals(model[name]) {
+						res.diff("LookupByString(%q) returned %v, alone %v", name, got, model[name])
+					}
+				})
+				release() // lets parked goroutines of a deadlocked round go
+				c.Count("rounds", 1)
+				c.Count("stalled_load_rounds", 1)
+				c.Count("ops_compared", res.ops)
+				if res.stuck {
+					c.Inconclusive("round %d did not finish within the watchdog and is not a provable deadlock", round)
+					return
+				}
+				if res.deadlock {
+					c.Violation("C17|deadlock|"+res.deadSite, "fanout %d: while one goroutine's load of child shard %s hangs in storage, a lookup of %q - whose hash path does not touch that shard - does not return: %s", fan, childA, nameB, res.deadMsg)
+					return
+				}
+				for _, dmsg := range res.diffs {
+					c.Violation("C17|result-differs|dir", "stalled load, round %d: %s", round, dmsg)
+				}
+			}
+			c.Sig(fmt.Sprintf("dir-stalled-load|f%d", fan), true)
+		})
+	}
+	// the same for two readers of one file node: A's read of the first leaf hangs, B reads the last leaf
+	for k := 0; k < r.Pick(2, 8); k++ {
+		k := k
+		r.Case(fmt.Sprintf("file-stalled-load/%d", k), map[string]any{"width": 2 + k%2, "goroutines": 2}, func(c *mon.Case) {
+			st := store.New()
+			content := gen.Content(c.Rand(), "rand", 60+c.Rand().Intn(40))
+			var l ipld.Link
+			var err error
+			withWidth(2+k%2, func() { l, _, err = builder.BuildUnixFSFile(bytes.NewReader(content), "size-5", st.LinkSystem(false)) })
+			if err != nil {
+				c.Harness("build: %v", err)
+				return
+			}
+			spans, _, err := walkerFor(st).FileSpans(linkCid(l))
+			if err != nil {
+				c.Harness("oracle: %v", err)
+				return
+			}
+			var first, last *oracle.Span
+			for i := range spans {
+				if spans[i].Leaf && spans[i].End > spans[i].Start {
+					if first == nil {
+						first = &spans[i]
+					}
+					last = &spans[i]
+				}
+			}
+			if first == nil || first == last || first.Cid.Equals(last.Cid) {
+				c.Harness("file has fewer than two distinct leaves")
+				return
+			}
+			for round := 0; round < 4; round++ {
+				fs := st.Clone()
+				ls := fs.LinkSystem(true)
+				raw, err := loadRaw(ls, linkCid(l))
+				if err != nil {
+					c.Harness("load: %v", err)
+					return
+				}
+				var node ipld.Node
+				if round%2 == 0 {
+					node, err = reify(ls, raw)
+				} else {
+					node, err = ls.KnownReifiers["unixfs-preload"](ipld.LinkContext{Ctx: bg}, raw, ls)
+				}
+				if err != nil {
+					c.Violation("C17|reify", "%v", err)
+					return
+				}
+				entered, gate := make(chan struct{}), make(chan struct{})
+				var once, gateOnce sync.Once
+				release := func() { gateOnce.Do(func() { close(gate) }) }
+				fs.OnRead = func(b cid.Cid) {
+					if b.Equals(first.Cid) {
+						once.Do(func() { close(entered) })
+						<-gate
+					}
+				}
+				hs := &hookState{seed: c.Seed + uint64(round)}
+				res := runRound(c, node, 2, hs, int64(c.Seed)+int64(round), func(g int, rr *rand.Rand, node ipld.Node, res *c17Result) {
+					sp := first
+					if g == 1 {
+						sp = last
+						<-entered
+					}
+					var got []byte
+					rs, err := node.(largeBytes).AsLargeBytes()
+					if err == nil {
+						if _, err = rs.Seek(sp.Start, io.SeekStart); err == nil {
+							got = make([]byte, sp.End-sp.Start)
+							_, err = io.ReadFull(rs, got)
+						}
+					}
+					atomic.AddInt64(&res.ops, 1)
+					if g == 1 {
+						release()
+					}
+					if err != nil || !bytes.Equal(got, content[sp.Start:sp.End]) {
+						res.diff("reading [%d,%d) through an own reader returned %x, err %v", sp.Start, sp.End, got, err)
+					}
+				})
+				release()
+				c.Count("rounds", 1)
+				c.Count("stalled_load_rounds", 1)
+				c.Count("ops_compared", res.ops)
+				if res.stuck {
+					c.Inconclusive("round %d did not finish within the watchdog and is not a provable deadlock", round)
+					return
+				}
+				if res.deadlock {
+					c.Violation("C17|deadlock|"+res.deadSite, "file of %d bytes: while one reader's load of the first leaf hangs in storage, another reader's read of the last leaf does not return: %s", len(content), res.deadMsg)
+					return
+				}
+				for _, dmsg := range res.diffs {
+					c.Violation("C17|result-differs|file", "stalled load, round %d: %s", round, dmsg)
+				}
+			}
+			c.Sig("file-stalled-load", true)
 		})
 	}
 	dirs := []dirCfg{{8, 400, false, "ascii"}, {8, 400, true, "ascii"}, {16, 600, false, "mixed"}, {8, 2000, false, "ascii"}, {256, 3000, false, "ascii"}, {8, 6, false, "crafted"}, {1024, 4000, true, "mixed"}, {32, 300, false, "hexprefix"}}
